@@ -221,7 +221,7 @@ Section ActsGood.
       intros Hinv Ht Hrp. unfold run_node_acts.
       destruct (take_blob T hc (rs_table T st) (n_targets n)) as [b t'] eqn:Etb.
       assert (clock_ok teqb (rs_world T st)) as Hk by apply Hinv.
-      destruct (InvProofs.take_blob_ok T teqb hc _ _ _ _ _ Hk Ht Etb) as [Hb _].
+      destruct (InvProofs.take_blob_ok T teqb hc teqb_spec _ _ _ _ _ Ht Etb) as [Hb _].
       destruct (read_history T teqb hr (rs_world T st) (n_rule n)) as [h|]; [|exact I].
       destruct (all_some _) as [tickets|]; [|exact I].
       apply handle_rule_acts_good; auto. rewrite (C01Build.take_blob_fst _ _ _ _ _ _ Etb). exact Hrp.
@@ -346,7 +346,7 @@ Section ActsGood.
       induction ns as [|n rest IH]; intros w t Hinv Ht; cbn [clean_nodes_acts]; [exact I|].
       destruct (take_blob T hc t (n_targets n)) as [b t'] eqn:Etb.
       assert (clock_ok teqb w) as Hk by apply Hinv.
-      destruct (InvProofs.take_blob_ok T teqb hc _ _ _ _ _ Hk Ht Etb) as [Hb Ht'].
+      destruct (InvProofs.take_blob_ok T teqb hc teqb_spec _ _ _ _ _ Ht Etb) as [Hb Ht'].
       destruct (clean_targets teqb hc w b) as [w1|e] eqn:Ec; [|apply IH; auto].
       apply acts_good_app. split; [apply clean_targets_acts_good; auto|].
       rewrite (clean_targets_acts_world T teqb hc hr _ _ _ Ec).
